@@ -79,7 +79,6 @@ type fieldAPI interface {
 	WordBits() int
 	Limbs() int
 	Op(op string, a []string) string
-	Conv(op string, a []string) string
 }
 
 var fields = map[string]fieldAPI{}
@@ -299,4 +298,3 @@ func registerField[T any, PT eltPtr[T], V ~[]T, PV vecPtr[T, V]](p fieldPkg[T, V
 	fieldNames = append(fieldNames, p.name)
 }
 
-func (f *fieldImpl[T, PT, V, PV]) Conv(op string, a []string) string { return "bad-op" }
